@@ -82,9 +82,9 @@ double Vector::Dot(const Vector& rhs) const
 
 Vector Vector::Cross(const Vector& rhs) const
 {
-	if(dimension != 3)
+	if(dimension != 3 || rhs.Size() != 3)
 	{
-		std::cerr << "Error in libphysica::Vector Vector::Cross(): Cross product only defined for 3 dimensions, not " << dimension << "." << std::endl;
+		std::cerr << "Error in libphysica::Vector Vector::Cross(): Cross product only defined for 3 dimensions, not " << dimension << " and " << rhs.Size() << "." << std::endl;
 		std::exit(EXIT_FAILURE);
 	}
 	else
